@@ -368,6 +368,14 @@ func initFloat() {
 	)
 	Def(
 		c,
+		"to_bigfloat",
+		func(_ *Thread, args []value.Value) (value.Value, value.Value) {
+			self := args[0].AsFloat()
+			return value.Ref(value.NewBigFloat(float64(self))), value.Undefined
+		},
+	)
+	Def(
+		c,
 		"to_int",
 		func(_ *Thread, args []value.Value) (value.Value, value.Value) {
 			self := args[0].AsFloat()
